@@ -61,6 +61,12 @@ Family(deep) == UNION {{[table |-> t.name, side |-> t.side, n |-> k] :
 (* structure, or not be a readable file                                                                        *)
 Degenerate == {"empty", "magic_only", "header_only", "data_only", "no_endsec", "no_end_marker", "missing_file", "directory", "nul_bytes", "binary_noise"}
 
+(* illegal entity combinations: the parts of an externally mapped instance may name entities the schema knows    *)
+(* (CBASE, CPA, CPB of schemas/rt.exp), entities it does not know, the same entity twice, in any order; the       *)
+(* reader sorts the names, drops the unknown ones and matches the rest against the supertype constraints         *)
+PartNames == {"CBASE", "CPA", "CPB", "AAA", "BBB", "ZZZ"}
+PartLists(maxlen) == UNION {[1..k -> PartNames] : k \in 1..maxlen}
+
 (* verdict on one instrumented run of the implementation *)
 SafeRun(rc, signalled, sanitizer, timedout) == ~signalled /\ ~sanitizer /\ ~timedout /\ rc \in 0..2
 =============================================================================
